@@ -843,7 +843,7 @@ class InstanceWriteProvider(BaseProvider):
 
         try:
             inst_store = self.cimrepository.get_instance_store(path.namespace)
-        except KeyError as ke:
+        except (KeyError, ValueError) as ke:
             raise CIMError(CIM_ERR_INVALID_PARAMETER, str(ke))
 
         return inst_store.object_exists(path)
